@@ -168,6 +168,19 @@ func (t1 *Tasks) Merge(t2 *Tasks, include *Include, includedTaskfileVars *Vars) 
 			taskName = taskNameWithNamespace(name, include.Namespace)
 			task.Namespace = include.Namespace
 			task.Task = taskName
+		} else {
+			// A flattened include keeps its names, but a ':'-prefixed reference
+			// still names a task of the including Taskfile
+			for _, dep := range task.Deps {
+				if dep != nil {
+					dep.Task = strings.TrimPrefix(dep.Task, NamespaceSeparator)
+				}
+			}
+			for _, cmd := range task.Cmds {
+				if cmd != nil {
+					cmd.Task = strings.TrimPrefix(cmd.Task, NamespaceSeparator)
+				}
+			}
 		}
 
 		if include.AdvancedImport {
